@@ -1,11 +1,79 @@
 """Generated/CborHead.lean — ABI CBOR head-width rule (C12, C13): `write_major` (encoder arms),
-`read_len` (decoder widths + over-wide rejection), one-byte simple/float markers, and the magics /
-tags of the little-endian records (EINT, ELOG, retained ingress)."""
+`read_len` (decoder widths + over-wide rejection), one-byte simple/float markers, and the nesting
+limit `MAX_DECODE_NESTING_DEPTH` with its check `if depth >= MAX… { return Err(NestingLimitExceeded) }`
+in BOTH container arms of `dec_value` AND of `enc_value` (every recursive call passing `depth + 1`,
+both roots starting at 0).  A missing / reordered check on either side is an anchor failure."""
 from extract_lib import *
 
 
 def num(s):
     return int(s.replace("_", ""), 0)
+
+
+NEST_CHECK = (r"if\s+depth\s*>=\s*MAX_DECODE_NESTING_DEPTH\s*\{\s*return\s+Err\s*\(\s*"
+              r"CanonError::NestingLimitExceeded\s*\)\s*;?\s*\}")
+
+
+def container_arm(body, label_re, what):
+    m = re.search(label_re + r"\s*=>\s*\{", body)
+    if not m:
+        raise Anchor(f"{what}: container arm not found")
+    e = balanced(body, m.end() - 1)
+    return body[m.end():e - 1]
+
+
+def nesting(src):
+    """The nesting limit and the four places that enforce it (encoder and decoder, arrays and maps)."""
+    m = re.search(r"const\s+MAX_DECODE_NESTING_DEPTH\s*:\s*usize\s*=\s*([0-9_]+)\s*;", src)
+    if not m:
+        raise Anchor("const MAX_DECODE_NESTING_DEPTH not found")
+    limit = num(m.group(1))
+    sides = (
+        # fn, root fn, root call, recursive-call name, argument pattern, arms, what must come after the check
+        ("dec_value", "decode_value", r"dec_value\(\s*bytes\s*,\s*&mut\s+idx\s*,\s*0\s*,\s*&mut\s+reserve\s*\)",
+         r"\s*bytes\s*,\s*idx\s*,\s*depth\s*\+\s*1\s*,\s*reserve\s*",
+         ((r"\n\s*4", "dec_value array arm"), (r"\n\s*5", "dec_value map arm")), ("Vec::with_capacity",)),
+        ("enc_value", "encode_value", r"enc_value\(\s*val\s*,\s*&mut\s+out\s*,\s*0\s*\)",
+         r"[^,()]*,[^,()]*,\s*depth\s*\+\s*1\s*",
+         ((r"Value::Array\(\w+\)", "enc_value array arm"), (r"Value::Map\(\w+\)", "enc_value map arm")),
+         ("enc_len(", "Vec::with_capacity")),
+    )
+    for fn, root, root_call, args_re, arms, after in sides:
+        body = fn_body(src, fn, fn)
+        if not re.search(r"depth\s*:\s*usize", src[re.search(r"fn\s+" + fn + r"\s*\(", src).end():][:200]):
+            raise Anchor(f"{fn}: no `depth: usize` parameter")
+        if not re.search(root_call, fn_body(src, root, root)):
+            raise Anchor(f"{root}: the root call no longer starts at depth 0")
+        if fn == "dec_value":
+            idx = body.rfind("match major")
+            if idx < 0:
+                raise Anchor("dec_value: `match major` not found")
+            scope = body[idx:]
+        else:
+            scope = body
+        in_arms = 0
+        for label_re, what in arms:
+            a = container_arm(scope, label_re, what)
+            chk = re.search(NEST_CHECK, a)
+            if not chk:
+                raise Anchor(f"{what}: nesting check `if depth >= MAX_DECODE_NESTING_DEPTH {{ return Err(NestingLimitExceeded) }}` not found")
+            uses = [a.find(x) for x in after + (fn + "(",)]
+            first_use = min([u for u in uses if u >= 0] or [len(a)])
+            if chk.start() > first_use:
+                raise Anchor(f"{what}: nesting check comes after the first write / allocation / recursive call")
+            if fn == "dec_value" and not (0 <= a.find("read_len(") < chk.start()):
+                raise Anchor(f"{what}: nesting check is expected after read_len (error order)")
+            calls = re.findall(fn + r"\s*\(([^()]*)\)", a)
+            if not calls:
+                raise Anchor(f"{what}: no recursive call found")
+            for c in calls:
+                if not re.fullmatch(args_re, c):
+                    raise Anchor(f"{what}: recursive call `{fn}({c.strip()})` does not pass depth + 1")
+            in_arms += len(calls)
+        total = len(re.findall(r"\b" + fn + r"\s*\(", body))
+        if total != in_arms:
+            raise Anchor(f"{fn}: {total - in_arms} recursive call(s) outside the checked container arms")
+    return limit
 
 
 def generate(repo):
@@ -112,5 +180,8 @@ def generate(repo):
     if [p[1] for p in fr] != [2, 4, 8]:
         raise Anchor(f"dec_value: float widths changed {fr}")
     out += f"def decSimpleIndefinite : Nat := {si.group(1)}\ndef decTagMajor : Nat := {tagm.group(1)}\n"
+    out += "\n/-- `MAX_DECODE_NESTING_DEPTH`; extracted only when `dec_value` AND `enc_value` refuse a container\n"
+    out += "    at `depth >= MAX_DECODE_NESTING_DEPTH` in both container arms and recurse with `depth + 1`. -/\n"
+    out += f"def maxNesting : Nat := {nesting(src)}\n"
     out += "\nend EchoVerif.Generated.CborHead\n"
     return out
